@@ -32,17 +32,26 @@ def eff_seg(k, seg):
     return ((seg + k - 1) // k) * k
 
 
-def sizes_for(k, seg):
+def sizes_for(k, seg, small=False):
+    """literal boundary + CHK sizes (>= 56) on and around segment multiples, incl. a power-of-two
+    segment count and one above it"""
     es = eff_seg(k, seg)
+    m0 = -(-56 // es)            # fewest segments of a CHK file
+    p = 1
+    while p < m0:
+        p *= 2
     s = {0, 1, 54, 55, 56, 57}
-    for m in (1, 2, 3):
-        for dlt in (-1, 0, 1):
-            s.add(m * es + dlt)
-    for nseg in (4, 5, 8, 9):
-        s.add(nseg * es)
-        s.add(nseg * es - 1)
-    s.add(56 + es)
-    return sorted(x for x in s if x >= 0)
+    if small:
+        s = {0, 55, 56, 57, m0 * es + 1, p * es, (p + 1) * es - 1}
+    else:
+        for m in (m0, m0 + 1, m0 + 2, m0 + 3):
+            for dlt in (-1, 0, 1):
+                s.add(m * es + dlt)
+        for q in (p, p + 1, 2 * p):
+            s.add(q * es)
+            s.add(q * es - 1)
+            s.add(q * es + 1)
+    return sorted(x for x in s if x >= 0 and (x <= 57 or x >= 56))
 
 
 def configs(tier):
@@ -55,11 +64,9 @@ def configs(tier):
         for seg in segs:
             Ss = sorted(set([1, n, n + 3])) if n <= kmax else [n]
             for S in Ss:
-                szs = sizes_for(k, seg)
-                if n > kmax or (tier == "quick" and S != n):
-                    szs = [x for x in szs if x in (0, 55, 56) or x >= 2 * eff_seg(k, seg)][:6]
+                szs = sizes_for(k, seg, small=(n > kmax or (tier == "quick" and S != n)))
                 for size in szs:
-                    if size > 56 and size // eff_seg(k, seg) > 70:
+                    if size > 56 and size // eff_seg(k, seg) > 150:
                         continue
                     for happy in sorted(set([1, min(n, S)])):
                         if happy != min(n, S) and size not in (56, 57):
